@@ -151,6 +151,12 @@ def f_mixed(a, b):
     return 0.5 * O.lev(a, b) + 0.25
 
 
+def f_kw_cap(a, b, cap=2, offset=0):
+    """an option whose own default is not None and for which None is a meaningful explicit value (no cap)"""
+    d = O.lev(a, b)
+    return (d if cap is None else min(d, cap)) + offset
+
+
 def f_kw_star(a, b, **options):
     """collects the forwarded options in a catch-all parameter"""
     return options.get("scale", 1) * O.lev(a, b) + options.get("offset", 0)
@@ -175,8 +181,8 @@ def _decorated(fn):
 
 FUNCS = {"lev": f_lev, "asym": f_asym, "kw": f_kw, "real": f_real, "mixed": f_mixed, "default": None,
          "kw_star": f_kw_star, "kw_only": f_kw_only, "kw_object": KwObject(), "kw_decorated": _decorated(f_kw),
-         "kw_partial": functools.partial(f_kw, scale=3), "kw_lambda": lambda a, b, **kw: f_kw(a, b, **kw)}
-KW_FUNCS = ["kw", "kw_star", "kw_only", "kw_object", "kw_decorated", "kw_partial", "kw_lambda"]
+         "kw_partial": functools.partial(f_kw, scale=3), "kw_lambda": lambda a, b, **kw: f_kw(a, b, **kw), "kw_cap": f_kw_cap}
+KW_FUNCS = ["kw", "kw_star", "kw_only", "kw_object", "kw_decorated", "kw_partial", "kw_lambda", "kw_cap"]
 
 
 def check_functional(case, rec):
@@ -275,7 +281,11 @@ def functional_case(draw, tier="quick"):
             "container": draw(st.sampled_from(["list", "tuple", "ndarray", "series_str"]))}
     if fname in ("real", "mixed"):
         case["dtype"] = "float64"
-    if fname in KW_FUNCS and draw(st.integers(0, 3)):
+    if fname == "kw_cap":
+        case["kwargs"] = {"cap": draw(st.sampled_from([None, None, 0, 1, 3])), "offset": draw(st.sampled_from([0, 0, 2]))}
+        if draw(st.integers(0, 3)) == 0:
+            del case["kwargs"]["offset"]
+    elif fname in KW_FUNCS and draw(st.integers(0, 3)):
         case["kwargs"] = {"scale": draw(st.integers(1, 5)), "offset": draw(st.integers(0, 9))}
         if draw(st.integers(0, 3)) == 0:
             del case["kwargs"]["scale" if draw(st.booleans()) else "offset"]
